@@ -761,7 +761,7 @@ func init() {
 		},
 		Gen:    genC02,
 		Exec:   withSample(genC02, execC02),
-		Shrink: shrinkPart,
+		Shrink: shrinkPart, DeathSig: w3DeathSig("C02"),
 	})
 	Register(&Check{
 		ID:    "C04",
@@ -780,6 +780,6 @@ func init() {
 		},
 		Gen:    genC04,
 		Exec:   withSample(genC04, execC04),
-		Shrink: shrinkPart,
+		Shrink: shrinkPart, DeathSig: w3DeathSig("C04"),
 	})
 }
